@@ -126,7 +126,7 @@ Step(hv2) == /\ l' = l + 1 /\ st' = S2 /\ hv' = HvIssued(hv2, S2)
 
 TReset == /\ IsEv("reset")
           /\ l' = l + 1 /\ st' = S2 /\ hv' = HvIssued(EmptyHist(DOMAIN S2.w), S2)
-          /\ aux' = [nodeUp |-> TRUE, dirty |-> {}, pre |-> S2, hvpre |-> EmptyHist(DOMAIN S2.w), ope |-> E]
+          /\ aux' = [nodeUp |-> TRUE, dirty |-> {}, pre |-> S2, hvpre |-> EmptyHist(DOMAIN S2.w), ope |-> E, fresh |-> {}]
 
 \* ---- init_send --------------------------------------------------------
 InitArgs(e, post) ==
@@ -355,6 +355,8 @@ TRefresh ==
           /\ InfoPartition(e, S2)
           /\ LedgerEquality(e, S2)
      /\ (Ok(e) /\ e.refreshed) =>
+          Check(RevertedRestored(st, S2, w, utxo), "C18", "RevertedRestored", e, "refresh")
+     /\ (Ok(e) /\ e.refreshed) =>
           \* C17: own expired unconfirmed entries are cancelled and their inputs released
           Check(\A t \in expired : t \in DOMAIN S2.w[w].txs =>
                    \/ S2.w[w].txs[t].conf
@@ -363,7 +365,7 @@ TRefresh ==
                             (S2.w[w].outs[k].tx = S2.w[w].txs[t].id /\ S2.w[w].outs[k].acct = S2.w[w].txs[t].acct)
                                => S2.w[w].outs[k].st # "Locked",
                 "C17", "ExpiredReleased", e, "")
-     /\ (Ok(e) /\ e.refreshed) =>
+     /\ (Ok(e) /\ e.refreshed /\ clean) =>     \* (a scan repair after a reorganisation may cancel entries)
           Check(\A t \in DOMAIN st.w[w].txs :
                    (st.w[w].txs[t].ty \in {"TxSent", "TxReceived"} /\ t \notin expired /\ t \in DOMAIN S2.w[w].txs)
                      => S2.w[w].txs[t].ty \notin {"TxSentCancelled", "TxReceivedCancelled"},
@@ -484,6 +486,44 @@ TCrash ==
                                                    diff |-> DiffWorld(exp, O)])>>)
      /\ l' = l + 1 /\ UNCHANGED <<st, hv, aux>>
 
+\* ---- forks, restore, scan, injected divergence (C16, C18) ---------------------
+Utxo2 == ToSet(Rec[l].obs.utxo)
+TFork ==
+  /\ IsEv("fork")
+  /\ LET e == E IN
+     /\ CheckMatch(Ok(e), e, "Fork:failed")
+     /\ Ok(e) => MatchState(Fork(st, e.depth, ToSet(e.kept)), e, "Fork")
+     /\ l' = l + 1 /\ st' = S2 /\ hv' = hv
+     /\ aux' = [aux EXCEPT !.dirty = @ \cup DOMAIN S2.w, !.pre = st, !.hvpre = hv, !.ope = E]
+TRestore ==
+  /\ IsEv("restore")
+  /\ Ok(E) => MatchState(Restore(st, E.w, E.from), E, "Restore")
+  /\ l' = l + 1 /\ st' = S2 /\ hv' = HvIssued([hv EXCEPT !.lockedBy = Put(@, E.w, <<>>), !.done = Put(@, E.w, {}),
+                                                           !.issued = Put(@, E.w, {})], S2)
+  /\ aux' = [aux EXCEPT !.pre = st, !.hvpre = hv, !.ope = E, !.fresh = @ \cup {E.w}]
+TDiverge ==
+  /\ IsEv("diverge")
+  /\ Ok(E) => MatchState(Diverge(st, E.w, E.kind, E.key), E, "Diverge")
+  /\ l' = l + 1 /\ st' = S2 /\ hv' = hv
+  /\ aux' = [aux EXCEPT !.dirty = @ \cup {E.w}, !.pre = st, !.hvpre = hv, !.ope = E]
+TScan ==
+  /\ IsEv("scan")
+  /\ LET e == E  w == e.w
+         prev == aux.ope
+         repeated == prev.ev = "scan" /\ prev.w = w /\ prev.res = "ok" /\ prev.del = e.del /\ prev.start = e.start
+         hOf(o) == HeightOfOut(S2, o) IN
+     /\ Ok(e) =>
+          /\ Check(ScanEqualsTruth(S2, w, Utxo2, e.del, Len(S2.chain)), "C16", "ScanEqualsTruth", e,
+                   IF e.del THEN "del" ELSE "nodel")
+          /\ (w \in aux.fresh) => Check(RestoredExact(S2, w, Utxo2, hOf), "C16", "RestoredExact", e, "")
+          /\ repeated => Check([S2.w[w] EXCEPT !.scanned = 0] = [st.w[w] EXCEPT !.scanned = 0], "C16", "ScanIdempotent", e, "")
+          /\ Check(RevertedReported(st, S2, w, Utxo2), "C18", "RevertedReported", e, "scan")
+     /\ IF ~CheckM THEN TRUE
+        ELSE LET r == Scan(st, w, IF e.start < 0 THEN 1 ELSE e.start, e.del) IN
+             /\ CheckMatch(Ok(e), e, "Scan:res")
+             /\ Ok(e) => MatchState(LastOf(r.steps), e, "Scan")
+     /\ Step(hv)
+
 \* a torn stored-transaction file must be reported as an error: never a crash, never a value
 TTrunc ==
   /\ IsEv("trunc")
@@ -493,14 +533,14 @@ TTrunc ==
 
 \* ---- anything else: observe only ------------------------------------------
 Known == {"reset", "init_send", "lock", "receive", "finalize", "cancel", "post", "mine", "node_up", "node_down",
-          "refresh", "create_account", "set_active", "build_coinbase", "issue_invoice", "process_invoice", "crash", "trunc"}
+          "refresh", "create_account", "set_active", "build_coinbase", "issue_invoice", "process_invoice", "crash", "trunc", "fork", "restore", "diverge", "scan"}
 TOther == /\ l <= Len(Rec) /\ Rec[l].ev \notin Known
           /\ Step(hv)
 
 TInit == /\ l = 1 /\ st = [w |-> <<>>, chain |-> <<>>, pool |-> {}, body |-> <<>>, reg |-> <<>>, nrep |-> <<>>]
-         /\ hv = EmptyHist({}) /\ aux = [nodeUp |-> TRUE, dirty |-> {}, pre |-> <<>>, hvpre |-> EmptyHist({}), ope |-> <<>>]
+         /\ hv = EmptyHist({}) /\ aux = [nodeUp |-> TRUE, dirty |-> {}, pre |-> <<>>, hvpre |-> EmptyHist({}), ope |-> <<>>, fresh |-> {}]
 TNext == \/ TReset \/ TInitSend \/ TLock \/ TReceive \/ TFinalize \/ TCancel \/ TPost \/ TMine \/ TNode
-         \/ TRefresh \/ TAccount \/ TBuildCoinbase \/ TIssueInvoice \/ TProcessInvoice \/ TCrash \/ TTrunc \/ TOther
+         \/ TRefresh \/ TAccount \/ TBuildCoinbase \/ TIssueInvoice \/ TProcessInvoice \/ TCrash \/ TTrunc \/ TFork \/ TRestore \/ TDiverge \/ TScan \/ TOther
 TSpec == TInit /\ [][TNext]_tvars
 
 \* every line must have been consumed (the spec has no way to get stuck other
